@@ -115,7 +115,7 @@ def run(ctx):
         a, b, c = (mk(seed=1000 + 3 * k, w=2, l=1, fd=True), mk(seed=1001 + 3 * k, w=2, l=1, fd=False, rb=29),
                    mk(seed=1002 + 3 * k, w=1, l=2, fd=True, lt=57))
         seqs.append([a, b, c])
-    jobs += [dict(op="gen_main_seq", argvs=[cli_args(p) for p in sq], limit=60) for sq in seqs]
+    jobs += [dict(op="gen_main_seq", argvs=[cli_args(p) for p in sq], limit=60, debug=bool(k % 2)) for k, sq in enumerate(seqs)]
     res = impl.run_cases(jobs, limit=20, tag="c17")
     nseq = len(seqs)
     rseq, res = res[len(res) - nseq:], res[:len(res) - nseq]
